@@ -56,6 +56,9 @@ pub struct FmtSpec {
     pub zero: bool,
     pub width: Option<usize>,
     pub precision: Option<usize>,
+    /// the `#` flag (no effect on numbers and strings)
+    #[serde(default)]
+    pub alt: bool,
 }
 
 /// Links a quantity type to its unit constants (table order).
